@@ -106,7 +106,7 @@ func verifC16CheckEpoch(c *kit.Case, nc NodesCoordinator, epoch uint32, allowed 
 }
 
 func verifC16RunCase(rt *rapid.T, c *kit.Case) {
-	keys := &verifSHBKeyGen{long: rapid.IntRange(0, 3).Draw(rt, "longKeys") == 0}
+	keys := verifSHBDrawKeyGen(rt)
 	s := verifSHBGenSetup(rt, keys)
 	co, err := s.Build(s.selfPK, s.cacheSize, s.rater)
 	if err != nil {
@@ -188,7 +188,7 @@ func verifC16RunCase(rt *rapid.T, c *kit.Case) {
 
 func TestVerifC16_EpochChange(t *testing.T) {
 	kit.Run(t, "C16", kit.Budget{Quick: 4000, Thorough: 60000},
-		"1-3 shards + meta, min nodes 1..4, group sizes <= min nodes, hysteresis 0/0.2/1, cross-shard or intra-shard distributor, 0-2 max-nodes configs, waiting-list-fix epoch 0/3/never (same value in coordinator and shuffler), balance epoch 0/3/never, start epoch 0..3, with or without rater; 1-4 (thorough 6) consecutive epochs; the validator info of each epoch is derived from the configuration the coordinator reports for the current epoch: each validator keeps (list, shard) or becomes leaving / jailed / inactive with its current shard (rates drawn per epoch; refused leavers mostly stay leaving), plus 0-4 new, 0-2 jailed/inactive and 0-2 leaving entries with fresh keys, drawn index and rating; marshalled with the production marshalizer into per-shard peer miniblocks; EpochStartPrepare + EpochStartAction; non-trivial = an epoch reached as 2nd or later with >=1 leaving eligible, >=1 leaving waiting, >=1 new, >=2 shards; distinct by the whole history",
+		"1-3 shards + meta, min nodes 1..4, group sizes <= min nodes, hysteresis 0/0.2/1, cross-shard or intra-shard distributor, 0-2 max-nodes configs, waiting-list-fix epoch 0/3/never (same value in coordinator and shuffler), balance epoch 0/3/never, start epoch 0..3, with or without rater; validator keys of 8 bytes (1/2), 96 bytes (1/4) or of different lengths 2-7 sharing prefixes (1/4); 1-4 (thorough 6) consecutive epochs; the validator info of each epoch is derived from the configuration the coordinator reports for the current epoch: each validator keeps (list, shard) or becomes leaving / jailed / inactive with its current shard (rates drawn per epoch; refused leavers mostly stay leaving), plus 0-4 new, 0-2 jailed/inactive and 0-2 leaving entries with fresh keys, drawn index and rating; marshalled with the production marshalizer into per-shard peer miniblocks; EpochStartPrepare + EpochStartAction; non-trivial = an epoch reached as 2nd or later with >=1 leaving eligible, >=1 leaving waiting, >=1 new, >=2 shards; distinct by the whole history",
 		verifC16RunCase)
 }
 
@@ -199,7 +199,8 @@ func TestVerifC16_Regress(t *testing.T) {
 	for _, fixEp := range []uint32{0, 2, 1000} {
 		for _, rater := range []bool{false, true} {
 			for _, cross := range []bool{false, true} {
-				keys := &verifSHBKeyGen{}
+				// the odd combinations use keys of different lengths with shared prefixes
+				keys := &verifSHBKeyGen{ragged: rater != cross}
 				s := &verifSHBSetup{
 					nbShards: 2, nodesShard: 2, nodesMeta: 2, gS: 2, gM: 1, hysteresis: 0.2, crossShard: cross,
 					balanceEp: 0, fixEp: fixEp, e0: 0, rater: rater, threshold: 5,
